@@ -379,3 +379,7 @@ MC_SCRIPT = {"module": "MC_Script", "cfg": "MC_Script", "cfg_thorough": "MC_Scri
 for _p in ("C01", "C02", "C03", "C04", "C05", "C06", "C07", "C19", "C21", "C29"):
     PLANS[_p].setdefault("mc", []).append(MC_SCRIPT)
 PLANS["C20"].setdefault("mc", []).append({"module": "MC_PipeReader", "timeout": 900})
+MC_CDCLT = {"module": "MC_CDCLT", "timeout": 1200}
+for _p in ("C01", "C02", "C11", "C12"):
+    PLANS[_p].setdefault("mc", []).append(MC_CDCLT)
+PLANS["C14"]["mc"] = [{"module": "MC_TermStore"}]
